@@ -27,6 +27,7 @@ LEVEL_TEXT = (
     "node's true rows (no truncated cache), and all invariants continue to hold for the rest of the history.  Lazy-marker "
     "steps: a user-defined marker constructed with the (possibly lazy) result of execute() as payload, a materialization "
     "on top, evaluated once by execute or process and then twice more: the later evaluations must not iterate any leaf."
+    "  A fixed family of SQL-engine probes: operations built, compiled and run on a cached SQL materialization (or processed transfer) must leave its payload object and content untouched."
 )
 LEVEL_NOTE = "trusts: counting payloads; attached payloads carry the node's true rows so later results stay comparable with the reference evaluator; iteration engines only (SQL payload attachment is covered through Processor in C07)"
 RULE = (
@@ -462,6 +463,82 @@ def run_case(case, stats):
             stats.mark_nontrivial(codec.digest(case), lambda: describe(case), cls="+".join(sorted({k for k, _ in steps})))
     finally:
         env.close()
+
+
+EXHAUSTIVE_NOTE = (
+    "SQL side of the write-once rule: a fixed family of SQL trees with a materialization evaluated by the real Processor; "
+    "every downstream operation of a list (selections, calculations, sort / slice / deduplication, join, chain) is built on "
+    "the cached materialization, compiled and run; the materialization's payload must stay the identical object with unchanged "
+    "content and the materialization must keep returning the first rows"
+)
+
+
+def exhaustive(tier, stats, shard, nshards, run):
+    """Not an enumeration of cases of the strategy: a fixed family of probes on the SQL engine (see EXHAUSTIVE_NOTE)."""
+    if shard != 0:
+        return
+    from lsst.daf.relation import ColumnExpression, SortTerm
+
+    from vf.core.fp import payload_fp
+    from vf.core.matrix import A, B, C, D, UNIVERSE
+    from vf.core.prog import multiset
+    from vf.core.sqlh import compile_and_run
+
+    rows0 = ((2, 1, 0), (0, 2, 1), (1, 0, 2), (2, 0, 1), (0, 1, 2), (1, 1, 1))
+    leaves = (
+        ("L0", (A, B, C), rows0, 0, "data", (len(rows0), len(rows0)), "plain"),
+        ("L1", (A, D), ((0, 7), (1, 8), (2, 9)), 0, "data", (3, 3), "renamed"),
+        ("L2", (A, B, C), rows0[:3], 1, "data", (3, 3), "plain"),
+    )
+    ra, rb, rc = (ColumnExpression.reference(t) for t in (A, B, C))
+    lit = ColumnExpression.literal
+    downstream = {
+        "selection a >= 1": lambda m, env: m.with_rows_satisfying(ra.ge(lit(1))),
+        "selection b = 0, then selection a >= 1": lambda m, env: m.with_rows_satisfying(rb.eq(lit(0))).with_rows_satisfying(ra.ge(lit(1))),
+        "calculation d = a + b": lambda m, env: m.with_calculated_column(D, ra.method("__add__", rb)),
+        "calculation d = a + b, then selection": lambda m, env: m.with_calculated_column(D, ra.method("__add__", rb)).with_rows_satisfying(rc.le(lit(1))),
+        "sort, slice": lambda m, env: m.sorted([SortTerm(ra), SortTerm(rb), SortTerm(rc)])[1:3],
+        "deduplication after projection": lambda m, env: m.with_only_columns({A}).without_duplicates(),
+        "join with another leaf, selection on top": lambda m, env: m.join(env.leafrels[1]).with_rows_satisfying(ra.ge(lit(1))),
+        "selection, then chain with the materialization itself": lambda m, env: m.with_rows_satisfying(ra.ge(lit(2))).chain(m),
+    }
+    upstream = {
+        "materialize(selection over a SQL leaf)": lambda env: env.leafrels[0].with_rows_satisfying(rc.ge(lit(0))).materialized(name="pm0"),
+        "materialize(iteration leaf transferred into the SQL engine)": lambda env: env.leafrels[2].transferred_to(env.sql).materialized(name="pm1"),
+        "selection over a transfer into the SQL engine (processed transfer carries the payload)": lambda env: env.leafrels[2].transferred_to(env.sql),
+    }
+    for uname, up in upstream.items():
+        for dname, down in downstream.items():
+            env = Env(leaves)
+            try:
+                proc = make_processor(env)
+                what = f"{uname}; then, on the cached node: {dname}"
+                try:
+                    node = proc.process(up(env))
+                    holder = node
+                    while holder.payload is None and hasattr(holder, "target"):
+                        holder = holder.target
+                    if holder.payload is None:
+                        raise Violation("no-payload", f"process() left no payload on {node}; {what}")
+                    payload, before = holder.payload, payload_fp(holder.payload)
+                    first = compile_and_run(env, node)[0][0]
+                    for _ in range(2):  # built, compiled and run twice
+                        rel = down(node, env)
+                        compile_and_run(env, rel)
+                    again = compile_and_run(env, node)[0][0]
+                except Violation:
+                    raise
+                except Exception as e:
+                    raise Violation("probe-raised", f"{type(e).__name__}: {str(e)[:300]}; {what}", exc=e)
+                if holder.payload is not payload:
+                    raise Violation("payload-replaced", f"the payload object of {holder} was replaced; {what}")
+                if payload_fp(holder.payload) != before:
+                    raise Violation("cached-payload-changed", f"content of the cached payload of {str(holder)[:120]} changed: {before} -> {payload_fp(holder.payload)}; {what}")
+                if multiset(again) != multiset(first):
+                    raise Violation("cached-rows-changed", f"the cached node returned {first} before and {again} after; {what}")
+                stats.c["sql-materialization-probes"] += 1
+            finally:
+                env.close()
 
 
 def describe(case):
